@@ -1,7 +1,7 @@
 """Shared pieces of the C03 / C13 / C14 plugins (token-bucket rate limiter; harness/driver c03).
 
 Protocol (see harness/cmd/c03/main.go):
-  cfg rate <p:a:b[,p:a:b…]> cap=<n> [solo=1]
+  cfg rate <p:a:b[,p:a:b…]> cap=<n>|cap=default [solo=1]
     at <ns> req <src> <amount> [rates=<…>] [evict=<src>]   -> 200 | 429 <delay_ns> | 500   [solo=<…>]
     retry [extra=<ns>]                                      -> <resp> t=<ns> | noretry
     at <ns> preq <src> <amount> <n> <goroutines>            -> 200=<a> 429=<b> 500=<c>   (concurrent flood at one instant)
@@ -46,6 +46,12 @@ def refill_within_ttl(rates):
     """the hypothesis of C03_limiter_window: every burst refills within the time an idle entry is kept"""
     g = 10 * (max(r[0] for r in rates) // S) * S
     return all(r[2] * tpt(r) <= g for r in rates)
+
+
+def cap_of(cfg):
+    """capacity of a `cfg rate` line: cap=<n>, or cap=default / absent = ratelimit.DefaultCapacity"""
+    v = kv(cfg, "cap")
+    return int(v) if v and v != "default" and int(v) > 0 else 65536
 
 
 def kv(f, key):
